@@ -304,6 +304,9 @@ type simSink struct {
 	onWrite  func(p outPkt)
 	// the packet is on the wire when WriteTo is entered; the call itself returns this much later (a slow socket)
 	writeDelay time.Duration
+	// the socket is not writable at first: the bytes are only taken (and the packet is on the wire) this much after WriteTo
+	// was entered - until then the caller's buffer must stay what it was
+	acceptDelay time.Duration
 }
 
 var _ packets.Sink = (*simSink)(nil)
@@ -320,6 +323,9 @@ func (s *simSink) WriteTo(buf []byte, addr netip.AddrPort) error {
 	s.mu.Unlock()
 	if err, _ := s.faults.hit("WriteTo"); err != nil {
 		return err
+	}
+	if s.acceptDelay > 0 {
+		time.Sleep(s.acceptDelay)
 	}
 	p := outPkt{at: time.Now(), data: append([]byte(nil), buf...), to: addr}
 	s.mu.Lock()
